@@ -18,6 +18,7 @@ type GenParams struct {
 	MapOrders  bool
 	SmallCache bool
 	Defer      bool
+	NoTinyUtxo bool // keep the utxo cache large (the known small-cache finding would end most runs early)
 }
 
 var kvKeys = []string{"k0", "k1", "k2", "k3"}
@@ -67,7 +68,11 @@ func GenChainPlan(rt *rapid.T, p *GenParams) *ChainPlan {
 	if len(p.Windows) > 0 {
 		pl.Window = rapid.SampledFrom(p.Windows).Draw(rt, "window")
 	}
-	pl.UtxoCache = rapid.SampledFrom([]int{1000, 1000, 200, 3, 1}).Draw(rt, "utxocache")
+	if p.NoTinyUtxo {
+		pl.UtxoCache = rapid.SampledFrom([]int{1000, 200}).Draw(rt, "utxocache")
+	} else {
+		pl.UtxoCache = rapid.SampledFrom([]int{1000, 1000, 200, 3, 1}).Draw(rt, "utxocache")
+	}
 	if p.SmallCache {
 		pl.BlkCache = rapid.SampledFrom([]int{0, 1, 2, 4}).Draw(rt, "blkcache")
 		pl.ExtCache = rapid.SampledFrom([]int{0, 1, 2, 4}).Draw(rt, "extcache")
